@@ -341,7 +341,7 @@ func TestC02_Splices(t *testing.T) {
 			t.Fatalf("cannot sign: %v", err)
 		}
 		otherTrafficEvery(4)
-		kind := rapid.SampledFrom([]string{"splice-payload", "splice-protected", "splice-signature", "sig-zero", "sig-random", "sig-flip", "byte-edits", "alg-unprotected-only", "alg-nowhere", "nil-payload", "nil-payload-original-sig", "nil-payload-original-sig", "empty-signature", "wrong-key", "reencode", "equiv-protected", "equiv-protected", "equiv-payload", "extend-payload", "extend-payload", "extend-protected", "shrink-payload", "sig-reencode", "sig-reencode", "prefix-payload", "prefix-payload", "other-container", "other-container", "keyless-signature", "keyless-signature"}).Draw(t, "kind")
+		kind := rapid.SampledFrom([]string{"splice-payload", "splice-protected", "splice-signature", "sig-zero", "sig-random", "sig-flip", "byte-edits", "alg-unprotected-only", "alg-nowhere", "nil-payload", "nil-payload-original-sig", "nil-payload-original-sig", "empty-signature", "wrong-key", "reencode", "equiv-protected", "equiv-protected", "equiv-payload", "extend-payload", "extend-payload", "extend-protected", "shrink-payload", "sig-reencode", "sig-reencode", "prefix-payload", "prefix-payload", "other-container", "other-container", "keyless-signature", "keyless-signature", "element-rewrap", "element-rewrap"}).Draw(t, "kind")
 		var mut []byte
 		detail := ""
 		rebuild := func(prot, pay, sig []byte) []byte {
@@ -494,10 +494,42 @@ func TestC02_Splices(t *testing.T) {
 			// (r, s) as PKCS#11-style back-ends emit it, DER plus trailing
 			// junk, zero-padded or zero-stripped halves, the signature twice
 			sig := a.Parts.Signature
-			how := rapid.SampledFrom([]string{"der", "der+junk", "pad-left", "pad-halves", "strip-zeros", "twice", "append-zero"}).Draw(t, "how")
+			how := rapid.SampledFrom([]string{"der", "der+junk", "pad-left", "pad-halves", "strip-zeros", "twice", "append-zero", "reverse-halves", "reverse-halves", "reverse-all", "swap-halves", "swap-and-reverse", "complement", "byte-swap-16", "byte-swap-32"}).Draw(t, "how")
 			var alt []byte
 			half := len(sig) / 2
+			rev := func(b []byte) []byte {
+				r := make([]byte, len(b))
+				for i := range b {
+					r[len(b)-1-i] = b[i]
+				}
+				return r
+			}
 			switch how {
+			// the same numbers in another byte order (a little-endian crypto
+			// accelerator's r and s, word-swapped values), the halves
+			// exchanged, every bit inverted: other bytes, so no signature
+			case "reverse-halves":
+				alt = append(rev(sig[:half]), rev(sig[half:])...)
+			case "reverse-all":
+				alt = rev(sig)
+			case "swap-halves":
+				alt = append(append([]byte{}, sig[half:]...), sig[:half]...)
+			case "swap-and-reverse":
+				alt = append(rev(sig[half:]), rev(sig[:half])...)
+			case "complement":
+				alt = make([]byte, len(sig))
+				for i := range sig {
+					alt[i] = ^sig[i]
+				}
+			case "byte-swap-16", "byte-swap-32":
+				w := 2
+				if how == "byte-swap-32" {
+					w = 4
+				}
+				alt = append([]byte{}, sig...)
+				for i := 0; i+w <= len(alt); i += w {
+					copy(alt[i:i+w], rev(sig[i:i+w]))
+				}
 			case "der", "der+junk":
 				type rs struct{ R, S *big.Int }
 				der, derr := asn1.Marshal(rs{new(big.Int).SetBytes(sig[:half]), new(big.Int).SetBytes(sig[half:])})
@@ -524,6 +556,37 @@ func TestC02_Splices(t *testing.T) {
 			}
 			mut = rebuild(a.Parts.Protected, a.Parts.Payload, alt)
 			detail = how
+		case "element-rewrap":
+			// the genuine header, payload and signature, but one element of the
+			// array is no longer the byte string the structure requires: the
+			// wrapper is cut off (the header or claims map stands there
+			// itself), doubled, or of another string type. Those are other
+			// envelope bytes for the protected header / payload / signature.
+			prot, pay, sig := icbor.Bstr(a.Parts.Protected), icbor.Bstr(a.Parts.Payload), icbor.Bstr(a.Parts.Signature)
+			shapes := map[string]*icbor.Node{
+				"protected-unwrapped":      icbor.Tag(18, icbor.Arr(icbor.Raw(a.Parts.Protected), icbor.Map(), pay, sig)),
+				"protected-double-wrapped": icbor.Tag(18, icbor.Arr(icbor.Bstr(icbor.Encode(prot)), icbor.Map(), pay, sig)),
+				"protected-as-text":        icbor.Tag(18, icbor.Arr(icbor.Tstr(string(a.Parts.Protected)), icbor.Map(), pay, sig)),
+				"protected-tag24":          icbor.Tag(18, icbor.Arr(icbor.Tag(24, prot), icbor.Map(), pay, sig)),
+				"protected-in-array":       icbor.Tag(18, icbor.Arr(icbor.Arr(prot), icbor.Map(), pay, sig)),
+				"protected-in-unprotected": icbor.Tag(18, icbor.Arr(icbor.Bstr(nil), icbor.Raw(a.Parts.Protected), pay, sig)),
+				"protected-both-buckets":   icbor.Tag(18, icbor.Arr(icbor.Raw(a.Parts.Protected), icbor.Raw(a.Parts.Protected), pay, sig)),
+				"payload-unwrapped":        icbor.Tag(18, icbor.Arr(prot, icbor.Map(), icbor.Raw(a.Parts.Payload), sig)),
+				"payload-double-wrapped":   icbor.Tag(18, icbor.Arr(prot, icbor.Map(), icbor.Bstr(icbor.Encode(pay)), sig)),
+				"payload-as-text":          icbor.Tag(18, icbor.Arr(prot, icbor.Map(), icbor.Tstr(string(a.Parts.Payload)), sig)),
+				"payload-tag24":            icbor.Tag(18, icbor.Arr(prot, icbor.Map(), icbor.Tag(24, pay), sig)),
+				"signature-double-wrapped": icbor.Tag(18, icbor.Arr(prot, icbor.Map(), pay, icbor.Bstr(icbor.Encode(sig)))),
+				"signature-as-text":        icbor.Tag(18, icbor.Arr(prot, icbor.Map(), pay, icbor.Tstr(string(a.Parts.Signature)))),
+				"signature-in-array":       icbor.Tag(18, icbor.Arr(prot, icbor.Map(), pay, icbor.Arr(sig))),
+				"all-unwrapped":            icbor.Tag(18, icbor.Arr(icbor.Raw(a.Parts.Protected), icbor.Map(), icbor.Raw(a.Parts.Payload), sig)),
+			}
+			names := make([]string, 0, len(shapes))
+			for k := range shapes {
+				names = append(names, k)
+			}
+			sort.Strings(names)
+			detail = rapid.SampledFrom(names).Draw(t, "shape")
+			mut = icbor.Encode(shapes[detail])
 		case "reencode":
 			// same covered bytes, different outer encoding: no verdict, but
 			// exercises the "covered-bytes-unchanged" path of the oracle
